@@ -78,18 +78,8 @@ def r2_tracing(text):
         body = text[mo.end():pc]
         bm = m[mo.end():pc]
         if re.search(r'\breturn\b', bm):
-            # closure-local return: keep semantics with a labelled block
-            body2 = re.sub(r'\breturn\b', "break 'vx_scope", body) if body.strip().startswith('{') else None
-            if body2 is None:
-                raise AnchorLost('in_scope closure with return but no block body')
-            # masked-safe: only replace in code positions
-            out, last = [], 0
-            for r in re.finditer(r'\breturn\b', bm):
-                out.append(body[last:r.start()])
-                out.append("break 'vx_scope")
-                last = r.end()
-            out.append(body[last:])
-            body = "'vx_scope: " + ''.join(out)
+            # closure-local `return`: keep the closure and call it at once (in_scope(f) == f())
+            body = '(|| ' + body + ')()'
         text = text[:mo.start()] + body + text[pc + 1:]
         fired += 1
     return text, fired
